@@ -10,8 +10,15 @@ KERNELS = ["island._reset_compact_maps", "island._compact_dofs"]
 LEVEL_TEXT = ("Theorems about the compaction kernels regenerated from island.py/solver.py on every run, for all sizes and task orders: the generated kernels equal a hand-written model; with "
               "count <= nvmax the maps dof_cdof/cdof_dof are mutually inverse between awake dofs and [0,ncdof), -1 elsewhere (incl. the padded tail), order inside a tree preserved; the NVMAX bit is "
               "set iff count > nvmax (exact fit grants everything, ncdof = min(count,nvmax)); gather followed by scatter restores qacc on active dofs and writes exactly 0 on frozen ones. "
+              "The theorems take the launch grid of _reset_compact_maps, (nworld, max(nv, nvmax_pad)), as a hypothesis (launch dims are not part of the generated model); that the host really "
+              "rebuilds the maps from tree_awake alone on a Data with history is sampled: forests of 4-6 independent trees (nv 20-36, dense and sparse, both cones, 1-2 worlds with different "
+              "awake sets), ONE Data per case driven through a sequence of awake sets (highest tree, nothing, lowest tree, random subsets, every tree), DOF capacity in rotation "
+              "(nvmax_pad = 16 < nv / default / some sets overflow); after every forward() dof_cdof, cdof_dof, ncdof equal a NumPy transcription, the NVMAX bit is set iff count > nvmax, frozen "
+              "dofs have exactly zero qacc/qacc_smooth/qfrc_constraint, and the awake trees' qacc/qacc_smooth/qfrc_constraint equal MuJoCo's full (sleep-disabled) solve; the same checks on a "
+              "leg driven only through qfrc_applied/forward/step (wake, fall asleep, wake another tree). "
               "That a dense solve on the compacted problem equals the full solve when every tree is awake is sampled (sleep-enabled vs sleep-disabled forward()).")
-LEVEL_NOTE = "C38_partial: numerical equality of the compact Newton solve with the full solve is sampled. Trusted: Lean kernel, tier-B translator (interception)."
+LEVEL_NOTE = ("C38_partial: numerical equality of the compact Newton solve with the full solve, and the launch grids of update_active_dofs (hypotheses IsGrid2/IsGrid1 of the theorems), are "
+              "sampled, incl. repeated calls on one Data with a changing awake set and nvmax_pad < nv. Trusted: Lean kernel, tier-B translator (interception).")
 ASSUMPTIONS = ["tree dof ranges are disjoint (MuJoCo compiler invariant)"]
 
 XML = """
@@ -27,13 +34,272 @@ XML = """
 """
 
 
-def _run(ctx, ncases, rec):
+# ---------------------------------------------------------------------------------------------------------------------
+# history leg: ONE Data, the awake set changes from call to call (all kinds of subsets, per world), DOF capacity in rotation
+# ---------------------------------------------------------------------------------------------------------------------
+KINDS = {"free_hinge": 7, "chain3": 3, "slide_hinge": 2, "ball_hinge": 4, "free": 6}
+MODES = ("small", "default", "mid", "small2")   # rotation of the DOF capacity, see RULE
+
+
+def _tree_xml(t, kind, mass, fl):
+  def h(n, ax):
+    return f'<joint name="{n}" type="hinge" axis="{ax}" frictionloss="{fl:.3f}" range="-1 1" limited="true"/>'
+  pos = f"{1.5 * t} 0 0"
+  if kind == "free_hinge":
+    return (f'<body pos="{pos}"><freejoint/><geom type="box" size=".2 .1 .1" mass="{mass}"/><body pos=".3 0 0">{h(f"h{t}", "0 1 0")}'
+            f'<geom type="capsule" size=".05" fromto="0 0 0 .3 0 0" mass="{0.5 * mass}"/></body></body>')
+  if kind == "free":
+    return f'<body pos="{pos}"><freejoint/><geom type="box" size=".2 .1 .15" mass="{mass}"/></body>'
+  if kind == "chain3":
+    return (f'<body pos="{pos}">{h(f"a{t}", "0 1 0")}<geom type="capsule" size=".05" fromto="0 0 0 .3 0 0" mass="{mass}"/>'
+            f'<body pos=".3 0 0">{h(f"b{t}", "1 0 0")}<geom type="capsule" size=".05" fromto="0 0 0 0 .3 0" mass="{0.7 * mass}"/>'
+            f'<body pos="0 .3 0">{h(f"c{t}", "0 0 1")}<geom type="capsule" size=".04" fromto="0 0 0 .2 0 .1" mass="{0.4 * mass}"/></body></body></body>')
+  if kind == "slide_hinge":
+    return (f'<body pos="{pos}"><joint type="slide" axis="0 0 1" frictionloss="{fl:.3f}"/><geom size=".08" mass="{mass}"/>'
+            f'<body pos="0 0 .2">{h(f"s{t}", "0 1 0")}<geom type="capsule" size=".04" fromto="0 0 0 .2 0 0" mass="{0.5 * mass}"/></body></body>')
+  return (f'<body pos="{pos}"><joint type="ball"/><geom type="capsule" size=".05" fromto="0 0 0 .3 0 0" mass="{mass}"/>'
+          f'<body pos=".3 0 0">{h(f"k{t}", "0 1 0")}<geom type="capsule" size=".04" fromto="0 0 0 0 0 .2" mass="{0.5 * mass}"/></body></body>')
+
+
+def _forest(rng, sparse, cone, grav):
+  """4-6 independent trees (no contact, no cross-tree constraint), 20 <= nv <= 36, frictionloss + limit rows in every tree"""
+  names = list(KINDS)
+  while True:
+    kinds = [names[int(rng.integers(len(names)))] for _ in range(int(rng.integers(4, 7)))]
+    if 20 <= sum(KINDS[k] for k in kinds) <= 36:
+      break
+  masses = [round(float(rng.uniform(0.5, 3.0)), 2) for _ in kinds]
+  fls = [float(rng.uniform(0.05, 0.4)) for _ in kinds]
+  bodies = "".join(_tree_xml(t, k, masses[t], fls[t]) for t, k in enumerate(kinds))
+
+  def xml(sleep):
+    flag = 'sleep="enable" ' if sleep else ""
+    jac = "sparse" if sparse else "dense"
+    return (f'<mujoco><compiler angle="radian"/><option gravity="0 0 {grav}" solver="Newton" {cone} jacobian="{jac}" tolerance="1e-10" iterations="50">'
+            f'<flag {flag}contact="disable"/></option><worldbody>{bodies}</worldbody></mujoco>')
+  return kinds, xml(True), xml(False)
+
+
+def _rand_qpos(mjm, rng):
+  q = mjm.qpos0.copy()
+  for j in range(mjm.njnt):
+    a = mjm.jnt_qposadr[j]
+    ty = int(mjm.jnt_type[j])
+    if ty == 3:
+      q[a] = rng.normal() * 0.8          # limit range is [-1, 1]: violated now and then -> active limit rows
+    elif ty == 2:
+      q[a] = rng.normal() * 0.1
+    elif ty == 1:
+      v = rng.normal(size=4)
+      q[a:a + 4] = v / np.linalg.norm(v)
+    else:
+      q[a:a + 3] += rng.normal(size=3) * 0.05
+      v = rng.normal(size=4)
+      q[a + 3:a + 7] = v / np.linalg.norm(v)
+  return q
+
+
+def _ref_maps(awake, adr, num, nv, nvmax, nvp):
+  """NumPy transcription of the SPECIFIED result of update_active_dofs (maps rebuilt from tree_awake alone, -1 elsewhere)"""
+  dc, cd, c = -np.ones(nv, int), -np.ones(nvp, int), 0
+  for t in range(len(adr)):
+    if awake[t] == 1:
+      for j in range(int(num[t])):
+        if c < nvmax:
+          dc[adr[t] + j], cd[c] = c, adr[t] + j
+        c += 1
+  return dc, cd, min(c, nvmax), c
+
+
+def _check_call(acc, mujoco, d, mn, mref, qpos, qv, qf, ta, adr, num, cap, replay):
+  """after ONE forward() on Data d whose awake sets are ta (nworld x ntree): maps vs transcription, NVMAX bit iff count > capacity,
+  frozen dofs exactly zero, awake dofs vs MuJoCo's full (sleep-disabled) solve on the same state"""
+  nworld, nt = ta.shape
+  nv, nvp = mn.nv, d.nvmax_pad
+  dc, cd, nc, ov = d.dof_cdof.numpy(), d.cdof_dof.numpy(), d.ncdof.numpy(), d.overflow.numpy()
+  out = {"qacc": d.qacc.numpy(), "qacc_smooth": d.qacc_smooth.numpy(), "qfrc_constraint": d.qfrc_constraint.numpy()}
+  nefc = d.nefc.numpy()
+  for w in range(nworld):
+    acc.evals += 1
+    rdc, rcd, rnc, cnt = _ref_maps(ta[w], adr, num, nv, cap, nvp)
+    over = cnt > cap
+    acc.hit("hist:overflow" if over else "hist:fit")
+    if cnt == cap:
+      acc.hit("hist:exact-fit")
+    if cnt == 0:
+      acc.hit("hist:nothing-awake")
+    if cnt == nv:
+      acc.hit("hist:all-awake")
+    if not ((dc[w] == rdc).all() and (cd[w] == rcd).all() and int(nc[w]) == rnc):
+      bad = np.nonzero(dc[w] != rdc)[0].tolist()
+      acc.find(f"dof_cdof/cdof_dof/ncdof after forward() differ from the maps rebuilt from tree_awake (dof_cdof wrong at dofs {bad[:8]}, "
+               f"ncdof {int(nc[w])} vs {rnc}; nv={nv}, nvmax_pad={nvp})", "island.update_active_dofs", "compact-maps-vs-reference",
+               world=w, dof_cdof=dc[w].tolist(), expected=rdc.tolist(), **replay)
+    if bool(int(ov[w]) & 128) != over:
+      acc.find(f"NVMAX bit is {'set' if int(ov[w]) & 128 else 'clear'} with {cnt} awake dofs and capacity {cap} (overflow word zeroed before the call)",
+               "island._compact_dofs", "nvmax-bit-subset", world=w, **replay)
+    if over:
+      continue   # behaviour undefined by contract; only the bit is checked
+    awk = np.zeros(nv, bool)
+    for t in range(nt):
+      if ta[w, t] == 1:
+        awk[adr[t]:adr[t] + num[t]] = True
+    if (~awk).any():
+      mx = {k: float(np.abs(v[w][~awk]).max()) for k, v in out.items()}
+      if any(not (x == 0.0) for x in mx.values()):
+        acc.find(f"frozen dofs (trees asleep) have nonzero output after forward(): max |.| = {mx}", "solver.solve_compact", "frozen-dof-nonzero",
+                 world=w, **replay)
+    if awk.any():
+      # awake trees are decoupled from the sleeping ones (no contact, no cross-tree rows): their part of the full solve is the reference
+      mref.qpos[:], mref.qvel[:], mref.qfrc_applied[:] = qpos, qv[w], qf[w]
+      mujoco.mj_forward(mn, mref)
+      if nefc[w] > 0:
+        acc.hit("hist:constrained")
+      for name, got in out.items():
+        ref = getattr(mref, name)
+        scale = 1.0 + float(np.abs(ref[awk]).max())
+        err = float(np.abs(got[w][awk] - ref[awk]).max()) / scale
+        if not err < 2e-3:
+          acc.find(f"{name} of the awake trees after the compacted solve differs from MuJoCo's full solve: rel. err {err:.3g} (scale {scale:.3g})",
+                   "solver.solve_compact", "subset-vs-full", world=w, field=name, **replay)
+
+
+def _history_case(acc, rng, c, mujoco, mjw, wp, seed):
+  from mujoco_warp._src import types as T
+  sparse = c % 2 == 1
+  cone = 'cone="elliptic"' if rng.random() < 0.5 else ""
+  public = c % 4 == 0                      # this case additionally runs the public-inputs-only leg (gravity off so that trees fall asleep)
+  grav = 0 if public or rng.random() < 0.5 else -9.81
+  kinds, xs, xn = _forest(rng, sparse, cone, grav)
+  ms, mn = mujoco.MjModel.from_xml_string(xs), mujoco.MjModel.from_xml_string(xn)
+  nv, nt = ms.nv, ms.ntree
+  adr, num = ms.tree_dofadr.copy(), ms.tree_dofnum.copy()
+  mode = MODES[c % 4]
+  nworld = 2 if mode in ("small2", "mid") else 1
+  maxtree = int(num.max())
+  # DOF capacity in rotation: small -> nvmax_pad = 16 < nv (the maps are wider than the compacted workspace); default -> nvmax = nv;
+  # mid -> some subsets exceed it
+  nvmax = int(rng.integers(maxtree, 16)) if mode in ("small", "small2") else int(rng.integers(maxtree, nv)) if mode == "mid" else None
+  cap = nv if nvmax is None else nvmax
+  mjd = mujoco.MjData(ms)
+  mjd.qpos[:] = qpos = _rand_qpos(ms, rng)
+  mujoco.mj_forward(ms, mjd)
+  m = mjw.put_model(ms)
+  d = mjw.put_data(ms, mjd, nworld=nworld, nvmax=nvmax, njmax=64)
+  nvp = int(d.nvmax_pad)
+  acc.hit(f"hist:mode:{mode}")
+  acc.hit("hist:sparse" if sparse else "hist:dense")
+  acc.hit("hist:nvmax_pad<nv" if nvp < nv else "hist:nvmax_pad>=nv")
+  acc.distinct.add(("hist", c, tuple(kinds), nvmax))
+  acc.sample({"history": True, "kinds": kinds, "nv": int(nv), "nvmax": nvmax, "nvmax_pad": nvp, "nworld": nworld})
+
+  def fits(S):
+    return sum(int(num[t]) for t in S) <= cap
+
+  # awake-set sequence per world: HIGHEST-index tree first (dofs above nvmax_pad are awake once), then nothing, then a low tree in the same
+  # compacted slots, then random subsets; mid: every tree (overflow) in the middle, then fitting sets again; default: every tree at the end
+  seqs = []
+  for w in range(nworld):
+    hi = nt - 1 - w
+    third = [0, hi] if (w == 1 and fits([0, hi])) else [0]
+    seq = [[hi], [], third]
+    for _ in range(2):
+      while True:
+        S = [t for t in range(nt) if rng.random() < 0.5]
+        if mode == "mid" or fits(S):
+          break
+      seq.append(S)
+    if mode == "default":
+      seq.append(list(range(nt)))
+    if mode == "mid":
+      seq.insert(3, list(range(nt)))
+    seqs.append(seq)
+  awake_val = -(1 + T.MJ_MINAWAKE)
+  mref = mujoco.MjData(mn)
+  for k in range(len(seqs[0])):
+    ta, tas = np.zeros((nworld, nt), np.int32), np.zeros((nworld, nt), np.int32)
+    qv, qf = np.zeros((nworld, nv), np.float32), np.zeros((nworld, nv), np.float32)
+    for w in range(nworld):
+      for t in range(nt):
+        if t in seqs[w][k]:
+          ta[w, t], tas[w, t] = 1, awake_val
+          sl = slice(adr[t], adr[t] + num[t])
+          qv[w, sl] = rng.normal(size=num[t]) * 0.5
+          qf[w, sl] = rng.normal(size=num[t]) * 2.0
+        else:
+          tas[w, t] = t      # asleep, its own sleep cycle (what put_data takes over from MjData.tree_asleep); qvel = qfrc_applied = 0 there
+    # the sleep state is Data state (put_data copies it from MjData); forward() = wake() + update_sleep() recomputes everything else from it
+    wp.copy(d.tree_asleep, wp.array(tas, dtype=int))
+    wp.copy(d.tree_awake, wp.array(ta, dtype=int))
+    wp.copy(d.qvel, wp.array(qv, dtype=float))
+    wp.copy(d.qfrc_applied, wp.array(qf, dtype=float))
+    d.overflow.zero_()
+    mjw.forward(m, d)
+    if not (d.tree_awake.numpy() == ta).all():
+      acc.hit("hist:setup-awake-set-differs(skipped)")
+      continue
+    if k > 0:
+      acc.hit("hist:call-with-history")
+    _check_call(acc, mujoco, d, mn, mref, qpos, qv, qf, ta, adr, num, cap,
+                dict(leg="state", xml=xs, nvmax=nvmax, call=k, awake_sets=[s[:k + 1] for s in seqs], seed=seed, case=c))
+
+  if not public:
+    return
+  # public-inputs-only leg (qfrc_applied, forward, step): every tree asleep at put_data; push the highest tree -> wakes; release and step
+  # until it sleeps again; push tree 0 -> wakes and takes the compacted slots the other one had
+  qpos = qpos.copy()
+  for j in range(ms.njnt):
+    if int(ms.jnt_type[j]) == 3:     # inside the limits: a released tree must come to rest, not be pushed back by a violated limit
+      qpos[ms.jnt_qposadr[j]] = np.clip(qpos[ms.jnt_qposadr[j]], -0.9, 0.9)
+  mjd = mujoco.MjData(ms)
+  mjd.qpos[:] = qpos
+  mujoco.mj_forward(ms, mjd)
+  mjd.tree_asleep[:] = np.arange(nt)
+  d = mjw.put_data(ms, mjd, nworld=1, nvmax=nvmax, njmax=64)
+  zero = np.zeros((1, nv), np.float32)
+
+  def push(t):
+    f = zero.copy()
+    if t is not None:
+      f[0, adr[t]:adr[t] + num[t]] = rng.normal(size=num[t]) * 2.0
+    wp.copy(d.qfrc_applied, wp.array(f, dtype=float))
+    return f
+
+  for stage, t in enumerate((nt - 1, 0)):
+    f = push(t)
+    mjw.forward(m, d)
+    ta = d.tree_awake.numpy().copy()
+    if ta.sum() != 1 or ta[0, t] != 1:
+      acc.hit("hist:public-setup-failed(skipped)")
+      return
+    acc.hit("hist:public-call")
+    _check_call(acc, mujoco, d, mn, mref, qpos, zero, f, ta, adr, num, cap,
+                dict(leg="public", xml=xs, nvmax=nvmax, stage=stage, pushed_tree=int(t), seed=seed, case=c))
+    if stage == 0:
+      push(None)
+      for _ in range(40):
+        mjw.step(m, d)
+        if d.tree_awake.numpy().sum() == 0:
+          break
+      else:
+        acc.hit("hist:public-setup-failed(skipped)")
+        return
+      if np.abs(d.qpos.numpy()[0] - qpos).max() > 1e-5:   # nothing moved (no gravity, zero velocity): the reference state is unchanged
+        acc.hit("hist:public-setup-failed(skipped)")
+        return
+
+
+def _run(ctx, ncases, rec, nhist=0):
   import mujoco
   import mujoco_warp as mjw
   rng = np.random.default_rng(ctx.seed * 1000 + 38)
   acc = Acc()
 
   def scenario():
+    import warp as wp
+    rngh = np.random.default_rng(ctx.seed * 1000 + 3838)
+    for c in range(nhist):      # first, so that the intercepted launches include calls with history and nvmax_pad < nv
+      _history_case(acc, rngh, c, mujoco, mjw, wp, ctx.seed)
     for c in range(ncases):
       cone = 'cone="elliptic"' if rng.random() < 0.5 else ""
       sparse = rng.random() < 0.4
@@ -110,15 +376,20 @@ def _run(ctx, ncases, rec):
   return acc, kc
 
 
-RULE = ("3-tree scene on a floor with everybody moving (all trees awake); forward() with sleeping enabled (compacted solve) vs disabled (full solve), both cones, 1-2 worlds; then nvmax swept over "
-        "{nv, nv-1, nv/2}: NVMAX bit iff short, exact fit equals the full solve; distinct = (case, cone)")
+RULE = ("history leg (first): forest of 4-6 independent trees out of {free+hinge, free, 3-hinge chain, slide+hinge, ball+hinge}, 20 <= nv <= 36, frictionloss + joint limits, no contact; "
+        "case c: jacobian sparse iff c odd, DOF capacity mode MODES[c % 4] (small: nvmax in [largest tree, 15] -> nvmax_pad = 16 < nv; default; mid: nvmax in [largest tree, nv) with the "
+        "all-trees set forcing an overflow in the middle; small2: small with 2 worlds and different awake sets); one Data, 5-6 forward() calls with awake sets "
+        "[highest tree], [], [tree 0 (+ highest, world 1)], random, random (+ all trees); per call and world: compaction maps vs NumPy transcription, NVMAX bit iff count > nvmax, frozen dofs "
+        "exactly 0, awake dofs vs MuJoCo full solve (rel. 2e-3 of 1 + max|ref|); every 4th case also the public-inputs leg (all asleep, push highest tree, release + step until asleep, "
+        "push tree 0). Then the 3-tree scene on a floor with everybody moving (all trees awake); forward() with sleeping enabled (compacted solve) vs disabled (full solve), both cones, "
+        "1-2 worlds; then nvmax swept over {nv, nv-1, nv/2}: NVMAX bit iff short, exact fit equals the full solve; distinct = (case, cone) + (hist, case, tree kinds, nvmax)")
 
 
 def correspondence(ctx):
-  acc, kc = _run(ctx, 16 if ctx.thorough else 4, True)
+  acc, kc = _run(ctx, 16 if ctx.thorough else 4, True, nhist=32 if ctx.thorough else 8)
   return result(acc, RULE, kc=kc)
 
 
 def search(ctx, breaks):
-  acc, _ = _run(ctx, 40, False)
-  return search_result(acc, "the non-compacted solve + NVMAX bit under an nvmax sweep")
+  acc, _ = _run(ctx, 40, False, nhist=40)
+  return search_result(acc, "the non-compacted solve + NVMAX bit under an nvmax sweep; awake-set sequences on one Data vs rebuilt maps / frozen-zero / MuJoCo full solve")
